@@ -169,10 +169,14 @@ def run(seed=0, tier='quick', hints=None, broken=False):
         if bad:
             viol.append({'site': bad[0] if bad[0].startswith('C16') else 'C16:' + bad[0], 'kind': 'pipeline', 'case': case,
                          'observed': bad[1], 'expected': bad[2], 'log': bad[3]})
-    for i in range(n // 2):
+    # every slope x every intercept (integer-typed, whole-number floats, fractional floats off the half: a value such as
+    # -1023.75 that a truncation or a rounding of the HEADER moves the voxels by more than half a unit), both raw dtypes
+    # alternating; the thorough tier repeats the product on more volumes
+    grid = [(sl, ic) for sl in [1, 2, 1.0, 2.0, 0.5, 0.3, 1.1, 0.7]
+            for ic in [-1024, 0, -1024.0, 10, 10.0, 12.5, -1023.75, 0.25, -0.75]]
+    for i, (sl, ic) in enumerate(grid * (1 if tier == 'quick' else 12)):
         case = {'shape': rng.sample([3, 4, 5, 6], 3), 'seed': R.pick_seed(rng), 'spacing': [0.7, 0.4],
-                'slope': rng.choice([1, 2, 1.0, 2.0, 0.5, 0.3, 1.1, 0.7]), 'intercept': rng.choice([-1024, 0, -1024.0, 10, 10.0, 12.5]),
-                'raw_dtype': rng.choice(['int16', 'uint16'])}
+                'slope': sl, 'intercept': ic, 'raw_dtype': ['int16', 'uint16'][(i + i // len(grid)) % 2]}
         bad = check_rescale(case)
         evals += 1
         seen.add(('rescale', type(case['slope']).__name__, type(case['intercept']).__name__, case['raw_dtype']))
